@@ -23,6 +23,10 @@
   err_flows()       a failure of a call reaches a given value through Err-propagating adapters / helper returns only, R3
   decided_by() / replace_norm()   a helper's return table over the variants of the phase result, read row by row, R4 detect
   zip_rows() / unroll_zip()       FORALL effects over `slots.zip(LITERAL TABLE)` as one effect per row, R7
+  ok_needed()       success of a helper implies a call's Result was Ok: `?` / unwrap / return, or a match / if-let whose
+                    success sites all lie on the Ok side (local stand-in for lib/discard.ok_on_success, see there), R4
+  PathPushes        which ('concat', ..) values are PathBuf::push chains (= Path::join) and which are text appends, R1 / R4
+  can_return()      reachable returns of a function, not counting what lies behind calls that never come back, R4
 """
 from .lib.discard import diverges
 from .lib.paths import strip
@@ -300,19 +304,23 @@ def eq_views(cd):
     return out
 
 
-def code_rows(prog, sl, fn, v, conds, is_result, via=None, depth=0):
-    """rows (kind 'const'|'result'|'other', value, conds, via) of an exit-code value.  is_result(r): r is the phase
-    Result whose Ok payload may be forwarded.  `via` is the error-handler closure (Fn) that produced the row's value."""
+def code_rows(prog, sl, fn, v, conds, is_result, via=None, depth=0, site=None):
+    """rows (kind 'const'|'result'|'other', value, conds, via, site) of an exit-code value.  is_result(r): r is the phase
+    Result whose Ok payload may be forwarded.  `via` is the error-handler closure (Fn) that produced the row's value;
+    `site` = (Fn, block) where the row's value was chosen when that is not the place of the exit call itself: a code
+    computed by a private function (`exit(run(buildpack))`, every `exit(CODE)` of the inlined spelling a `return CODE`
+    there) is read from that function's return table, one row per definition of its return value under the decisions
+    around it, in the caller's terms."""
     v = strip(v) if v[0] != 'unwrap' else v
     if v[0] == 'phi':
         for a in v[1]:
-            yield from code_rows(prog, sl, fn, a, conds, is_result, via, depth)
+            yield from code_rows(prog, sl, fn, a, conds, is_result, via, depth, site)
         return
     if v[0] == 'const':
-        yield ('const', v, conds, via)
+        yield ('const', v, conds, via, site)
         return
     if v[0] == 'unwrap' and is_result(v[1]):
-        yield ('result', v, conds, via)
+        yield ('result', v, conds, via, site)
         return
     if v[0] == 'call' and isinstance(v[1], str) and v[1].startswith('std::result::Result::') and depth < 3 and v[2] and is_result(v[2][0]):
         r = v[2][0]
@@ -333,13 +341,45 @@ def code_rows(prog, sl, fn, v, conds, is_result, via=None, depth=0):
                 errv = sl.apply_closure(strip(ecl), (('unwrap_err', r),)) if eg is not None else None
             if eg is not None and diverges(eg):
                 # the handler never returns a code: its exits are rows of their own (EXIT effects inside the closure)
-                yield from code_rows(prog, sl, fn, okv, conds + [okc], is_result, via, depth + 1)
+                yield from code_rows(prog, sl, fn, okv, conds + [okc], is_result, via, depth + 1, site)
                 return
             if errv is not None:
-                yield from code_rows(prog, sl, fn, okv, conds + [okc], is_result, via, depth + 1)
-                yield from code_rows(prog, sl, fn, errv, conds + [errc], is_result, eg if eg is not None else via, depth + 1)
+                yield from code_rows(prog, sl, fn, okv, conds + [okc], is_result, via, depth + 1, site)
+                yield from code_rows(prog, sl, fn, errv, conds + [errc], is_result, eg if eg is not None else via, depth + 1, site)
                 return
-    yield ('other', v, conds, via)
+    # a code computed by a private function: `run(..)` itself, or the payload of the Result / Option it returns
+    # (`if let Err(code) = ensure_supported_api() { exit(code) }`: the rows are the Err literals the gate returns)
+    payload, x = None, v
+    if v[0] in ('unwrap', 'unwrap_err'):
+        payload, x = ('Err',) if v[0] == 'unwrap_err' else ('Ok', 'Some'), v[1]
+        while x[0] == 'updated':
+            x = x[1]
+    if x[0] == 'call' and isinstance(x[1], str) and depth < 4 and not is_result(x):
+        g = prog.fns.get(x[1])
+        if g is not None and g.kind != 'Closure' and not g.partial_defs(0):
+            from .lib.tables import arm_defs
+            from .lib.value import subst
+            live = g.reachable(0)
+            defs = [d for d in g.whole_defs(0) if d[1] in live]
+            table = [(bb, rv, cds) for bb, rv, cds in arm_defs(g, 0, sl) if bb in live]
+            if table and len(table) == len(defs):
+                m = {(g.path, i): a for i, a in enumerate(x[2]) if i < g.argc}
+                for bb, rv, cds in table:
+                    sub = [SubstCond(cd, m, sl) for cd in cds] if m else list(cds)
+                    rv = subst(rv, m, sl) if m else rv
+                    for alt in (alts(rv) if payload else [rv]):
+                        if payload:
+                            while alt[0] == 'updated':
+                                alt = alt[1]
+                            if alt[0] == 'agg' and alt[1] in (RESULT, 'std::option::Option') and alt[2] is not None:
+                                if alt[2] not in payload:
+                                    continue        # this way of returning has no such payload: not a way to this exit
+                                alt = dict(alt[3]).get('0', ('unknown',))
+                            else:
+                                alt = (v[0], alt)
+                        yield from code_rows(prog, sl, g, alt, list(conds) + sub, is_result, via, depth + 1, (g, bb))
+                return
+    yield ('other', v, conds, via, site)
 
 
 def _replace(v, old, new):
@@ -1234,12 +1274,47 @@ def name_spine(v):
 TRUNCATING = ('std::fs::write', 'std::fs::File::create')
 
 
+def _result_of(v, g, c):
+    """v is the Result / Option produced by call c of g, possibly seen through adapters that can only succeed when their
+    receiver did (map / map_err / and_then / inspect ..)"""
+    for _ in range(8):
+        while v[0] == 'updated':
+            v = v[1]
+        if v[0] != 'call':
+            return False
+        if len(v) > 3 and v[3] == (g.path, c.bb):
+            return True
+        if _adapter(v):
+            v = v[2][0]
+            continue
+        return False
+    return False
+
+
+def ok_needed(prog, sl, g, c, sites):
+    """does g reaching one of its success sites imply that the Result / Option of call c was Ok / Some?  `?`, unwrap, being
+    returned, Ok-preserving combinators followed by those (lib/discard.ok_on_success) — or, as a decision: every success
+    site lies on the Ok / Some side of a `match` / `if let` / let-else on that very result, whatever the other arms do
+    with the error (`match write(..) { Ok(()) => Ok(()), Err(e) => Err(Wrapped(e)) }` is `write(..)?`)."""
+    from .lib.discard import ok_on_success
+    from .lib.guards import conditions
+    if ok_on_success(prog, g, c, sites):
+        return True
+    if not sites:
+        return False
+    for bb in sites:
+        if not any(cd.kind == 'variant' and cd.outcome and cd.outcome <= {'Ok', 'Some'} and cd.subject is not None and _result_of(cd.subject, g, c)
+                   for cd in conditions(g, bb, sl)):
+            return False
+    return True
+
+
 def chain_always(E, prog, e, first=1):
     """[] when, in every workspace function between the entry function and the std call of effect e, the next call of
     the chain is made on every way to that function's success (from chain level `first` on: the levels above are the
     ones that hold the "was it provided" decision and are judged by the caller) and its failure cannot end in that
     success (closures: only the latter); else the reasons"""
-    from .lib.discard import ok_on_success
+    ok_on_success = lambda prog_, g_, c_, sites_: ok_needed(prog_, E.slicer, g_, c_, sites_)
     bad = []
     levels = list(e.chain) + [e.call]
     for i in range(1, len(levels)):
@@ -1260,6 +1335,36 @@ def chain_always(E, prog, e, first=1):
                 if not ok_on_success(prog, g, x, sites):
                     bad.append('%s can succeed although %s failed' % (g.path.split('::')[-1], _last(x.name or '?')))
     return bad
+
+
+# ---- "never returns" through private functions that never return (R4) ----------------------------------------
+def can_return(prog, fn, _memo=None, _stack=()):
+    """blocks of fn's reachable `return`s, not counting what lies behind a call that cannot come back: `exit`, a panic, or a
+    workspace function every path of which ends in one (declared `-> !` or not: `fn bail(code: i32) { exit(code) }`)"""
+    memo = _memo if _memo is not None else {}
+    if fn.path in memo:
+        return memo[fn.path]
+    if fn.path in _stack or len(_stack) > 8:
+        return [-1]          # recursion: assume it can
+    seen, work, rets = set(), [0], []
+    calls = {c.bb: c for c in fn.calls}
+    while work:
+        b = work.pop()
+        if b in seen:
+            continue
+        seen.add(b)
+        if fn.blocks[b]['t']['t'] == 'ret':
+            rets.append(b)
+            continue
+        c = calls.get(b)
+        nxt = list(fn.succs(b))
+        if c is not None and not c.indirect:
+            gs = prog.callee_fns(c)
+            if gs and all(g.kind != 'Closure' and not can_return(prog, g, memo, _stack + (fn.path,)) for g in gs):
+                nxt = [t for t in nxt if t != c.target]
+        work.extend(nxt)
+    memo[fn.path] = rets
+    return rets
 
 
 # ---- errors of a phase are returned, not raised (R4) ------------------------------------------------------
@@ -1297,11 +1402,63 @@ def raised_errors(prog, sl, fns):
     return out
 
 
+# ---- paths built by pushing (`let mut p = dir.to_path_buf(); p.push(name)` is `dir.join(name)`) ---------------------
+# lib/value models every string-like value built through `&mut x` appends as ('concat', base, pushed, fresh) and does
+# not say which append it was: PathBuf::push (a path join: a separator goes in between, an absolute component replaces)
+# or String / OsString pushes (plain text concatenation: `<dir><name>` is another file).  The appending calls are looked
+# up where the value was built.
+PATH_PUSH = 'std::path::PathBuf::push'
+JOIN = 'std::path::Path::join'
+
+
+class PathPushes:
+    """which ('concat', ..) values of the functions `fns` are paths extended by PathBuf::push"""
+
+    def __init__(self, prog, sl, fns):
+        self.sl = sl
+        self.known = set()
+        self.only = True        # no other kind of append anywhere in fns: every concat seen from there is a path join
+        for g in fns:
+            if g is None:
+                continue
+            sl._appends(g, -1)
+            for local, calls in (sl._cache.get(('appends', g.path)) or {}).items():
+                if all(c.name == PATH_PUSH for c in calls):
+                    v = strip(sl.local(g, local))
+                    if v[0] == 'concat':
+                        self.known.add(v)
+                        self.known.add(strip(sl.inline_deep(v)))
+                else:
+                    self.only = False
+
+    def join_form(self, v):
+        """v with every path built by PathBuf::push rewritten as nested Path::join calls"""
+        if not isinstance(v, tuple) or not v or v[0] in _LEAVES:
+            return v
+        out = tuple(self.join_form(x) if isinstance(x, tuple) else x for x in v)
+        if v[0] == 'concat' and (self.only or v in self.known or strip(self.sl.inline_deep(v)) in self.known):
+            parts = list(out[2])
+            if out[3]:
+                if not parts:
+                    return out
+                acc = parts.pop(0)          # pushing onto the empty path gives the pushed path
+            else:
+                acc = out[1]
+            for p in parts:
+                acc = ('call', JOIN, (acc, p), None)
+            return acc
+        return v if out == v else out
+
+
+def path_pushes(prog, sl, roots):
+    return PathPushes(prog, sl, list(prog.reach([r for r in roots if r is not None]).values()))
+
+
 # ---- SBOM path function (R4) --------------------------------------------------------------------------
 def sbom_path_shape(prog, sl, f):
     """(problems, table) for `cnb_sbom_path(format, dir, name)`: the result is `dir` joined with ONE component built from
     `name` and a per-format text that is defined for every format and different for any two formats"""
-    v = strip(sl.inline_deep(sl.local(f, 0)))
+    v = strip(path_pushes(prog, sl, [f]).join_form(strip(sl.inline_deep(sl.local(f, 0)))))
     probs = []
     if not (v[0] == 'call' and v[1] in ('std::path::Path::join', 'std::path::PathBuf::join') and len(v[2]) == 2):
         return ['result is not <dir>.join(<file name>): %s' % v[0]], {}
